@@ -12,6 +12,8 @@ import (
 	"fmt"
 	"math"
 	"math/big"
+	"sort"
+	"strconv"
 	"strings"
 
 	"go.mongodb.org/mongo-driver/bson"
@@ -351,7 +353,11 @@ func sigDigits(c *big.Int) int {
 	return len(s)
 }
 
-// checkArith: the result of Add (mul=false) or Mul (mul=true) on two numbers
+// checkArith: the result of Add (mul=false) or Mul (mul=true) on two numbers.
+// Integers: the exact math/big result, typed int32 when both operands are
+// int32 and it fits, int64 otherwise; rejected (Missing) exactly when an int64
+// result does not fit.  Decimal128: the exact rational, or rejected exactly
+// when it is not representable.
 func checkArith(sink *failSink, st *oracleStats, mul bool, a, b, res interface{}) {
 	name := "add"
 	if mul {
@@ -368,10 +374,6 @@ func checkArith(sink *failSink, st *oracleStats, mul bool, a, b, res interface{}
 	if rb > want {
 		want = rb
 	}
-	if numRank(res) != want {
-		sink.add("C11:type-promotion", fmt.Sprintf("%s: result type is not the wider operand type (int32 < int64 < double < decimal)", name), []string{enc(a), enc(b), enc(res)})
-		return
-	}
 	st.Dist[fmt.Sprintf("%s:rank%d", name, want)]++
 	switch want {
 	case 0, 1:
@@ -383,58 +385,92 @@ func checkArith(sink *failSink, st *oracleStats, mul bool, a, b, res interface{}
 		} else {
 			exact.Add(x, y)
 		}
-		got, _ := intOf(res)
-		if got.Cmp(exact) != 0 {
-			lo, hi := big.NewInt(math.MinInt32), big.NewInt(math.MaxInt32)
-			if want == 1 {
-				lo, hi = big.NewInt(math.MinInt64), big.NewInt(math.MaxInt64)
+		fits32 := exact.Cmp(big.NewInt(math.MinInt32)) >= 0 && exact.Cmp(big.NewInt(math.MaxInt32)) <= 0
+		fits64 := exact.IsInt64()
+		var expect interface{}
+		switch {
+		case want == 0 && fits32:
+			expect = int32(exact.Int64())
+		case fits64:
+			expect = exact.Int64()
+		default:
+			expect = bsonkit.Missing
+		}
+		if enc(res) == enc(expect) {
+			if expect == bsonkit.Missing {
+				st.Dist[name+":int64-overflow-rejected"]++
+			} else if want == 0 && !fits32 {
+				st.Dist[name+":int32-promoted"]++
 			}
-			if exact.Cmp(lo) < 0 || exact.Cmp(hi) > 0 {
-				sink.add(sigIntOverflow, name+": integer overflow wraps around instead of promoting (int32) or failing (int64)", []string{enc(a), enc(b), enc(res)})
-			} else {
-				sink.add("C11:integer-inexact", name+": integer result differs from the mathematical result although it is representable", []string{enc(a), enc(b), enc(res)})
-			}
+			return
+		}
+		if got, ok := intOf(res); ok && got.Cmp(exact) != 0 {
+			sink.add(sigIntOverflow, name+": integer overflow wraps around instead of promoting (int32) or failing (int64)", []string{enc(a), enc(b), enc(res)})
+			return
+		}
+		sink.add("C11:integer-result", name+": expected "+enc(expect)+" (exact result, int32 if both operands are int32 and it fits, else int64, rejected on int64 overflow)", []string{enc(a), enc(b), enc(res)})
+	case 2:
+		if numRank(res) != 2 {
+			sink.add("C11:type-promotion", name+": result of a double operand is not a double", []string{enc(a), enc(b), enc(res)})
 		}
 	case 3:
 		ca, ea, fa, oka := decOf(a)
 		cb, eb, fb, okb := decOf(b)
 		if !oka || !okb {
-			return // a double operand: decimal.NewFromFloat, not recomputed here
+			// a double operand: decimal.NewFromFloat, not recomputed here
+			if res != bsonkit.Missing && numRank(res) != 3 {
+				sink.add("C11:type-promotion", name+": result of a Decimal128 operand is not a Decimal128", []string{enc(a), enc(b), enc(res)})
+			}
+			return
 		}
 		if !fa || !fb {
 			// MongoDB propagates NaN / Infinity; lungo collapses the operand to 0
-			rd := res.(primitive.Decimal128)
-			if !rd.IsNaN() && rd.IsInf() == 0 {
+			if rd, ok := res.(primitive.Decimal128); ok && !rd.IsNaN() && rd.IsInf() == 0 {
 				sink.add(sigDecNonFinite, name+": a NaN / Infinity Decimal128 operand is treated as 0 (MongoDB propagates it)", []string{enc(a), enc(b), enc(res)})
 			}
 			return
 		}
 		var exact *big.Rat
 		var ec *big.Int
+		ee := ea + eb
 		if mul {
 			exact = new(big.Rat).Mul(ratOf(ca, ea), ratOf(cb, eb))
 			ec = new(big.Int).Mul(ca, cb)
 		} else {
 			exact = new(big.Rat).Add(ratOf(ca, ea), ratOf(cb, eb))
-			e := ea
-			if eb < e {
-				e = eb
+			ee = ea
+			if eb < ee {
+				ee = eb
 			}
-			x := new(big.Int).Mul(ca, new(big.Int).Exp(big.NewInt(10), big.NewInt(int64(ea-e)), nil))
-			y := new(big.Int).Mul(cb, new(big.Int).Exp(big.NewInt(10), big.NewInt(int64(eb-e)), nil))
+			x := new(big.Int).Mul(ca, new(big.Int).Exp(big.NewInt(10), big.NewInt(int64(ea-ee)), nil))
+			y := new(big.Int).Mul(cb, new(big.Int).Exp(big.NewInt(10), big.NewInt(int64(eb-ee)), nil))
 			ec = x.Add(x, y)
+		}
+		_, representable := primitive.ParseDecimal128FromBigInt(ec, ee)
+		if res == bsonkit.Missing {
+			if representable {
+				sink.add("C11:decimal-rejected-although-representable", name+": a representable Decimal128 result is rejected", []string{enc(a), enc(b)})
+			} else {
+				st.Dist[name+":decimal-not-representable-rejected"]++
+			}
+			return
+		}
+		rd, isDec := res.(primitive.Decimal128)
+		if !isDec {
+			sink.add("C11:type-promotion", name+": result of a Decimal128 operand is not a Decimal128", []string{enc(a), enc(b), enc(res)})
+			return
 		}
 		cr, er, fr, _ := decOf(res)
 		if fr && ratOf(cr, er).Cmp(exact) == 0 {
 			return
 		}
-		h, l := res.(primitive.Decimal128).GetBytes()
+		h, l := rd.GetBytes()
 		if h == 0 && l == 0 && exact.Sign() != 0 {
 			what := ": an exact result with more than 34 significant digits becomes 0"
 			if sigDigits(ec) <= 34 {
 				what = ": an exact result outside the Decimal128 exponent range becomes 0"
 			}
-			sink.add(sigDecOverflow, name+what+" (decToD128 ignores the conversion failure)", []string{enc(a), enc(b), enc(res)})
+			sink.add(sigDecOverflow, name+what+" (the conversion failure is ignored)", []string{enc(a), enc(b), enc(res)})
 			return
 		}
 		sink.add("C11:decimal-inexact", name+": Decimal128 result differs from the exact result", []string{enc(a), enc(b), enc(res)})
@@ -442,7 +478,7 @@ func checkArith(sink *failSink, st *oracleStats, mul bool, a, b, res interface{}
 }
 
 func oracleNumeric(r *rng, n int, st *oracleStats) []oracleFailure {
-	st.Rule = "pairs over int32/int64/double/decimal incl. overflow boundaries, non-finite and non-canonical values, through bsonkit.Add/Mul and through $inc/$mul on a field: result type = wider operand type; integer results equal the math/big result; decimal results equal the exact rational; non-trivial = both operands are numbers"
+	st.Rule = "pairs over int32/int64/double/decimal incl. overflow boundaries, non-finite and non-canonical values, through bsonkit.Add/Mul and through $inc/$mul on a field: integer results equal the math/big result, typed int32 iff both operands are int32 and it fits, int64 otherwise, rejected exactly on int64 overflow; decimal results equal the exact rational or are rejected exactly when not representable; a rejected $inc/$mul leaves the field untouched; non-trivial = both operands are numbers"
 	sink := &failSink{}
 	for i := 0; i < n; i++ {
 		a, b := genNumOperand(r, pick(r, []int{0, 0, 1, 1, 2, 3, 3, 4})), genNumOperand(r, pick(r, []int{0, 0, 1, 1, 2, 3, 3, 4}))
@@ -479,7 +515,20 @@ func oracleNumeric(r *rng, n int, st *oracleStats) []oracleFailure {
 			}
 			if err != nil {
 				if numRank(a) >= 0 && numRank(b) >= 0 {
-					sink.add("C11:arith-rejected", op+" of two numbers is rejected", []string{enc(a), enc(b)})
+					// legitimate only when Add / Mul reject the pair (checked below on Missing);
+					// the rejected update must leave the document untouched
+					direct := bsonkit.Add(a, b)
+					if mul {
+						direct = bsonkit.Mul(a, b)
+					}
+					if direct != bsonkit.Missing {
+						sink.add("C11:arith-rejected", op+" of two numbers is rejected although the arithmetic has a result", []string{enc(a), enc(b)})
+						continue
+					}
+					if enc(bsonkit.Get(&d, "n")) != enc(a) {
+						sink.add("C11:rejected-update-left-changes", op+": a rejected update changed the field", []string{enc(a), enc(b), enc(bsonkit.Get(&d, "n"))})
+					}
+					checkArith(sink, st, mul, a, b, direct)
 				}
 				continue
 			}
@@ -621,7 +670,93 @@ func oracleAllOrNothing(r *rng, n int, st *oracleStats) []oracleFailure {
 	return sink.fails
 }
 
+// ---- Changed describes the update ----
+
+// canonDoc: the value with the fields of every (embedded) document sorted by
+// key, so that two documents that differ only in field order render equal.
+func canonDoc(v interface{}) interface{} {
+	switch x := v.(type) {
+	case bson.D:
+		out := make(bson.D, len(x))
+		for i, e := range x {
+			out[i] = bson.E{Key: e.Key, Value: canonDoc(e.Value)}
+		}
+		sort.SliceStable(out, func(i, j int) bool { return out[i].Key < out[j].Key })
+		return out
+	case bson.A:
+		out := make(bson.A, len(x))
+		for i, e := range x {
+			out[i] = canonDoc(e)
+		}
+		return out
+	}
+	return v
+}
+
+func oracleChangesFaithful(r *rng, n int, st *oracleStats) []oracleFailure {
+	st.Rule = "documents x updates of 1-3 operators (generator of family apply, no array filters); after a successful Apply the entries of Changes.Changed are replayed on a clone of the ORIGINAL document (bsonkit.Put for a value, bsonkit.Unset for Missing, in path order); the replayed document must equal the result up to the order of fields (Changed is an unordered map); updates that record a path with a non-canonical index segment (+1, -0, 01 — Put reads them as indices that alias 1, 0, 1 and escape the conflict check) are skipped; non-trivial = at least one change recorded"
+	sink := &failSink{}
+	for i := 0; i < n; i++ {
+		d := genApplyDoc(r, 2, r.chance(1, 3))
+		u, _ := genUpdate(r, d)
+		st.Evaluations++
+		d1 := *bsonkit.Clone(&d)
+		ch, err, pan := safeApply(applyCase{doc: &d1, query: &bson.D{}, update: &u, upsert: r.chance(1, 3)})
+		if pan || err != nil {
+			st.Dist["rejected"]++
+			continue
+		}
+		if len(ch.Changed) > 0 {
+			st.Nontrivial++
+			st.Dist["changed"]++
+		} else {
+			st.Dist["no-change-recorded"]++
+		}
+		if len(st.Samples) < 3 {
+			st.Samples = append(st.Samples, enc(d)+" "+enc(u))
+		}
+		keys := make([]string, 0, len(ch.Changed))
+		alias := false
+		for k := range ch.Changed {
+			keys = append(keys, k)
+			for _, seg := range strings.Split(k, ".") {
+				if n, err := strconv.Atoi(seg); err == nil && strconv.Itoa(n) != seg {
+					alias = true // "+1", "-0", "01": Put reads them as indices that alias "1", "0", "1"
+				}
+			}
+		}
+		if alias {
+			// two recorded paths may then name one array element without conflicting;
+			// the replay order would matter: outside the domain of this oracle
+			st.Dist["skipped:non-canonical-index-segment"]++
+			continue
+		}
+		sort.Strings(keys)
+		d2 := *bsonkit.Clone(&d)
+		failed := false
+		for _, k := range keys {
+			v := ch.Changed[k]
+			if v == bsonkit.Missing {
+				bsonkit.Unset(&d2, k)
+			} else if _, err := bsonkit.Put(&d2, k, cloneValue(v), false); err != nil {
+				failed = true
+				break
+			}
+		}
+		if failed || enc(canonDoc(d2)) != enc(canonDoc(d1)) {
+			sink.add("C11:changed-does-not-describe-update", "replaying Changes.Changed on the original document does not reproduce the updated document", []string{enc(d), enc(u), enc(d1), enc(d2)})
+		}
+	}
+	return sink.fails
+}
+
+func cloneValue(v interface{}) interface{} {
+	d := bson.D{{Key: "v", Value: v}}
+	return (*bsonkit.Clone(&d))[0].Value
+}
+
 func init() {
+	registerOracle(&oracle{prop: "C11", name: "changes-faithful", run: oracleChangesFaithful})
 	registerOracle(&oracle{prop: "C11", name: "idempotence", run: oracleIdempotence})
 	registerOracle(&oracle{prop: "C11", name: "untouched-fields", run: oracleUntouched})
 	registerOracle(&oracle{prop: "C11", name: "numeric", run: oracleNumeric})
